@@ -6,25 +6,30 @@ VERIF = os.path.dirname(os.path.dirname(os.path.abspath(__file__)))
 
 CHECKS = {
     "C11": dict(
-        text="Coq theorems, all unbounded. Interactive engine: for ANY graph instance and ANY start list (unsorted, duplicates) it reports exactly the sizes of the true layers "
-             "and its current layer IS the true layer (C11_ibfs_growth, C11_ibfs_layers). Unthinned BFS-mode walk: every vertex once with its true distance "
-             "(C11_walks_bfs_exhaustive). NumPy engine: the model of bfs_numpy (per-generator frontier groups, setdiff against the two previous layers, skipped inverse generator, "
-             "_make_states_unique) returns exactly the true layer sizes up to the depth limit / first empty layer for ANY bijective generator functions closed under inverse and any "
-             "start state, one-vertex orbit included (C11_numpy_bfs_growth, ..._takewhile, ..._counts_distance_classes). Bit-mask engine: the 8! prefix table is complete and "
-             "duplicate-free, chunk maps are mutually inverse, rank/unrank are mutually inverse for every n >= 8 (C11_prefix_table_complete, C11_chunk_map*_*, C11_rank_unrank, "
-             "C11_unrank_rank). Main BFS: C01. Tie: NumpyBfs.v / Bitmask.v evaluated in Coq on the implementation's cases with exact equality; all four engines compared with "
-             "the main BFS and a naive Python BFS (NumPy engine on coset central states and depth limits, interactive engine from start sets on directed/matrix/multi-word graphs, "
-             "bit-mask engine on n=9 (quick) / n=10 (thorough) families with and without depth limit).",
-        note="PARTIAL for the bit-mask engine only: its rank/unrank layer is proved, its whole-engine loop (gray/black bit sets over numba arrays, chunk scheduling) is compared "
-             "end-to-end with the main BFS, not modelled. The NumPy theorem is about abstract generator functions; that the generated 1-D routine IS the generator action is C02. "
-             "Trusted: as C01/C07.",
-        technique="Coq proof (interactive, unthinned-walk and NumPy engines unbounded; bit-mask rank/unrank layer) + model/implementation correspondence + cross-engine comparison",
+        text="Coq theorems, all unbounded. Interactive engine: for ANY graph instance and ANY start list it reports exactly the sizes of the true layers and its current layer IS "
+             "the true layer (C11_ibfs_growth, C11_ibfs_layers). Unthinned BFS-mode walk: every vertex once with its true distance (C11_walks_bfs_exhaustive). NumPy engine: the "
+             "model of bfs_numpy returns the true layer sizes for any bijective generators closed under inverse (C11_numpy_bfs_growth), and END TO END on the term the harness "
+             "evaluates: run on the library's GENERATED 1-D routines from the code of any central state, any width with n*w <= 64, it returns the true growth function of the "
+             "Schreier graph on states; it asserts exactly when an inverse is missing or duplicated (C11_numpy_bfs_encoded_growth, C11_np_inverse_index_err_iff). Bit-mask engine: "
+             "a statement-level model of the WHOLE engine (chunks by suffix, black/last/gray sets of ranks, materialise - apply - route - paint - flush, both stopping rules, the "
+             "np.roll grouping's IndexError) returns exactly the true layer sizes from any start permutation, generators not necessarily inverse-closed; it succeeds on the "
+             "documented domain and every outcome is characterised (C11_bitmask_bfs_growth, C11_bitmask_bfs_from_outcomes, C11_bitmask_bfs_from_total, C11_step_inv, "
+             "C11_rank_unrank ...). Main BFS: C01. Tie: NumpyBfs.v, Bitmask.v and BitmaskEngine.v evaluated in Coq on the implementation's runs with exact equality (bit-mask "
+             "engine: n=9 families incl. a random non-inverse-closed pair from a random start, with and without depth limit; n=10 thorough; error classes outside the domain); "
+             "all four engines compared with the main BFS and a naive Python BFS.",
+        note="Trusted: as C01/C07; numba-compiled helpers and np.unique/np.roll grouping of the bit-mask engine are abstracted in the model (painting is idempotent and "
+             "order-independent; the one semantic effect, the IndexError, is modelled) and validated by the whole-engine correspondence. The 4-bit packing of permutations used by "
+             "the bit-mask engine is the C02 codec at width 4.",
+        technique="Coq proof (all four engines: interactive, unthinned walk, NumPy end-to-end on encoded states, bit-mask whole engine) + model/implementation correspondence + cross-engine comparison",
         design="7 (C11)"),
     "C15": dict(
-        text="Coq theorems about Families.v (one Gallina constructor per library family). GENERAL in n (and k): lrx, lx, top_spin, pancake, coxeter, cyclic_coxeter, stars, "
-             "all_transpositions, full_reversals, down_cycles, prefix_cycles, consecutive_k_cycles - every generator is a permutation of n points, the count formula, the names, the "
-             "documented action on sequences (shift, swap, reversal of x[i..j], rotation of x[i..j]), inverse-closed exactly as documented. ALL families (incl. derangements, "
-             "conjugacy classes, block interchange, transposons, Rapaport, Sheveleva, Koltsov, signed/burnt, SL and Heisenberg matrices): the boolean acceptance check "
+        text="Coq theorems about Families.v (one Gallina constructor per library family). GENERAL in all parameters, for 33 families - lrx, lx, top_spin, pancake, coxeter, "
+             "cyclic_coxeter, stars, all_transpositions, full_reversals, down_cycles, prefix_cycles, consecutive_k_cycles, burnt_pancake, cubic_pancake, generalized_stars, "
+             "three_cycles, three_cycles_0ij, three_cycles_01i, larx, lsl_cycles, wrapped_k_cycles, increasing_k_cycles, rapaport_m1/m2, koltsov3, sheveleva2, signed_reversals, "
+             "transposons, block_interchange, all_cycles, heisenberg, special_linear_fundamental_roots, special_linear_root_weyl: the constructor succeeds EXACTLY on the documented "
+             "range (C15_*_range), returns the closed-form generators, count formula, names, name, central state, has the documented action on sequences (reversal, shift, swap, "
+             "3-cycle, block transposition ...) / matrix structure (I + E_ab, Weyl matrix, determinant 1), and is inverse-closed exactly as documented (C15_*_documented). "
+             "Derangements, involutive derangements and conjugacy classes: bounded. ALL families: the boolean acceptance check "
              "(validity, count, names, structure, inverse-closedness) is proved to mean what it says and holds for EVERY parameter tuple up to the stated bound by kernel computation "
              "(the property's own quantifier is bounded by enumerability). Tie: exhaustive equality model = implementation over the same bounded parameter domain (definitions AND "
              "error classes), an independent docstring oracle in Python (group orders for A_n / SL(n,Z/m) / Heisenberg), T4 translator of prepare_graph's dispatch chain + lookup == constructor, "
@@ -32,13 +37,13 @@ CHECKS = {
         note="Interpretation (DESIGN.md C15): 'Cayley graph for S_n' names the ambient group; orders are asserted only where the docstring names the generated group. Self-inconsistent "
              "docstrings are read as recorded in the evidence (doc_notes). Randomised families (rand_generators, random conjugacy representatives) are checked through recorded shuffles. "
              "Trusted: Coq kernel + vm_compute, Families.v (validated exhaustively), T4.",
-        technique="Coq proof (general-n theorems for index-list families + kernel-computed bounded theorem for all families) + exhaustive model/implementation equality + dispatch translator",
+        technique="Coq proof (general-parameter theorems for 33 families + kernel-computed bounded theorem for all families) + exhaustive model/implementation equality + dispatch translator",
         design="7 (C15)"),
     "C17": dict(
         text="Coq theorems about RefBfs.v, an independent reference BFS (AVL set over states, no hashing, no torch): a finished run returns exactly the sizes of the textbook layers "
              "of Graph.v (proved to be the distance classes), none empty, and the next layer is empty; the prefix run returns the sizes of layers 0..k; the boolean row checks mean "
              "what they say (C17_check_exact_sound / C17_check_prefix_sound). Decision per row: EVERY row of EVERY shipped CSV (808 rows, as load_dataset returns them, cross-checked "
-             "with a raw parse) is handed to that verified function as a Coq term and decided by the kernel VM: whole growth function when the orbit is within budget (quick 6000, "
+             "with a raw parse) is handed to that verified function as a Coq term and decided by the kernel VM: whole growth function when the orbit is within budget (quick 40000, "
              "thorough 400000 states), otherwise the longest prefix within budget + starts with 1 + positive + sum = documented order (n!, n!/2, 2^n n!, C(n,k), m^(2n-3), |SL(n,Z/m)|, "
              "2x2x2 constants). The graph a key denotes is built by the library constructor that datasets.py names (T5: constructor names re-read from the current datasets.py by AST).",
         note="Trusted: Coq kernel + vm_compute; the documented-order table (trusted input, listed in the evidence; 310 rows have no documented order - Hungarian rings, globes, k-cycle "
@@ -149,8 +154,9 @@ CHECKS = {
              "(repeats, identity, involutions), unimodular and modular matrices with the recorded np.linalg.inv result as oracle.",
         note="Trusted: Coq kernel, MathComp 1.15 (axiom-free here), model Def.v. Completeness of inv ('succeeds whenever an integer inverse exists'): after fix F24 the code falls back "
              "to an exact rational inverse; the model takes both candidates as oracle arguments (DefRun.mat_inv_fb) and proves that inv succeeds whenever the fallback delivers a right "
-             "inverse (mat_inv_fb_complete), for ANY float candidate. PARTIAL: that the Python fallback itself (_integer_inverse, Gauss-Jordan over Fractions) finds the inverse whenever "
-             "one exists is checked by an independent exact oracle (adjugate over Python integers) on every run, not proved.",
+             "inverse (mat_inv_fb_complete), for ANY float candidate; the fallback itself is modelled step by step (IntInverse.v) and proved sound AND complete (C10_integer_inverse_spec), "
+             "hence inv succeeds for every integer matrix with an int64 integer inverse (C10_mat_inv_fb_integer_inverse); the model of the fallback is compared with _integer_inverse on "
+             "every call of the run and on direct calls (singular, non-integral, large unimodular), and with an independent adjugate oracle.",
         technique="Coq proof (lists + MathComp bridge) + oracle-recorded correspondence",
         design="7 (C10)"),
     "C12": dict(
